@@ -36,6 +36,12 @@ def stream_reader_error_rules(F, ok, rep, P):
             f = pf.get(bi, TOP)
             if fact_match(f, "is", "^Io$", "read_subset") or fact_match(f, "is", "^Err$", "read_subset"):
                 good = True
+        # the same error value handed back whole: Err(err @ Error::Io(_)) => return Err(err)
+        for bi, s in agg_sites(sb, "std::result::Result", "Err"):
+            f = pf.get(bi, TOP)
+            if s["d"]["l"] == 0 and not s["d"]["p"] and fact_match(f, "is", "^Io$", "read_subset") and s["rv"]["ops"] and op_place(s["rv"]["ops"][0]) is not None:
+                if any(re.search(r"FrameHeader::read_subset$", callee_name(c)) for c in backward_slice(sb, s["rv"]["ops"][0])["calls"]):
+                    good = True
         rep.check(P, "FlacStreamReader::read returns an I/O error raised while parsing a frame header", good and len(rs) == 1, loc_of(sb), "",
                   "an I/O error from FrameHeader::read_subset is treated as 'not a header' and swallowed")
 
